@@ -64,6 +64,29 @@ def r10_1(run):
     run.floor('R10.1', '_ListWrapper constructions', n, 6)
 
 
+def r10_7(run):
+    """every attribute assignment in setup mode becomes the pending value (last assignment wins)"""
+    sa = CU(run, '__setattr__')
+    g = cfg_of(sa)
+    st = g.nodes_where(lambda n: n.kind == 'stmt' and isinstance(n.ast, ast.Assign) and isinstance(n.ast.targets[0], ast.Subscript) and dotted(n.ast.targets[0].value) == 'self.unsaved')
+    run.floor('R10.7', 'stores into unsaved in __setattr__', len(st), 1)
+    tests = [t for t in g.live if t.kind == 'test' and isinstance(t.ast, ast.Call) and dotted(t.ast.func) == 'has_setup_attr']
+    for t in tests:
+        nxt = [s_ for lab, s_ in t.succ if lab == 'T']
+        r = g.reachable(nxt, avoid=lambda n: n in st, follow_exc=False)
+        esc = [e for e in g.normal_exits() if e in r]
+        run.ob('R10.7', sa, t.ast, 'a configuration assignment always becomes the pending value', not esc, slot='always-pending',
+               message='TorConfig.__setattr__ can return without recording the assignment in unsaved: an earlier pending value for the same option is sent instead')
+    for n in st:
+        v = n.ast.value
+        run.ob('R10.7', sa, n.ast, 'the pending value is the assigned (validated) value', dotted(v) == sa.params[2], slot='pending-value', message='unsaved[...] = %s' % src(v))
+    # each assigned list gets its own wrapper bound to the option it was assigned to
+    for t in g.live:
+        if t.kind == 'test' and '_ListWrapper' in src(t.ast):
+            run.ob('R10.7', sa, t.ast, 'every assigned list is wrapped for its own option (no sharing of a wrapper between options)', False, slot='wrap-every-list',
+                   message='__setattr__ skips wrapping when the value is already a _ListWrapper: two options then share one list whose change callback names the other option')
+
+
 def r10_2(run):
     idx = run.idx
     lw = idx.cls('_ListWrapper', MOD)
@@ -347,6 +370,7 @@ def r10_6(run):
 
 
 RULES = [
+    ('R10.7', 'setter post-condition: every assignment reaches unsaved[name] = value; every list value is wrapped for its own option', r10_7),
     ('R10.6', 'identity flow: the pending list object itself becomes the current value (no copy / re-wrap on the list leg)', r10_6),
     ('R10.1', 'effect analysis on the call graph: nothing reachable from attribute access / list wrappers sends a command', r10_1),
     ('R10.2', 'tracked mutators: the six list mutators are wrapped; wrapper calls on_modify and the original once; mark_unsaved aliases the live list', r10_2),
